@@ -61,15 +61,15 @@ def bulk_plan(thorough):
              dict(tmo=120, shards=4, variant="std", asan_sample=10)),
         ]
     return [
-        ("small4", dict(depth=4, vars_=small, kinds=ALLKINDS, counts=(1, 2, 3), ends=("back", "front")), dict(tmo=60)),
+        ("small4", dict(depth=4, vars_=small, kinds=ALLKINDS, counts=(1, 3), ends=("back", "front")), dict(tmo=60)),
         ("small5", dict(depth=5, vars_=("n3", "full"), kinds=("shallow", "convert", "weak", "takelayout"), counts=(2,), ends=("front",),
                         ops=core + ("clear", "pokeg")), dict(tmo=60)),
         ("edge3", dict(depth=3, vars_=("n3", "full", "nz0"), kinds=ALLKINDS, counts=EDGE + (131073,), ops=core + ("poke", "pokeg", "clear"),
                        ends=("back", "front"), groups=1), dict(tmo=600)),
         # two groups on one chunk (the counter passes a boundary with the second group), release down to every boundary
-        ("edge4", dict(depth=4, vars_=("n3", "full"), kinds=("shallow", "fromlayout", "takelayout"), counts=(255, 65535, 65536, 65537),
+        ("edge4", dict(depth=4, vars_=("n3", "full"), kinds=("shallow", "fromlayout", "takelayout"), counts=(255, 65536, 65537),
                        ops=("create", "clonemany", "releasemany", "destroy"), relmode="full"), dict(tmo=600)),
-        ("huge5", dict(depth=5, vars_=("h31", "h32"), kinds=hugekinds, counts=(1, 2), ops=core + ("poke", "pokeg", "clear")),
+        ("huge4", dict(depth=4, vars_=("h31", "h32"), kinds=hugekinds, counts=(1, 2), ops=core + ("poke", "pokeg", "clear")),
          dict(tmo=120, shards=4, variant="std", asan_sample=60)),
     ]
 
@@ -110,14 +110,15 @@ def run_bulk(chk):
     seen, names = set(), []
     rnd = random.Random(vlib.seed())
     try:
-        with cf.ThreadPoolExecutor(max_workers=4) as ex:
+        # (at most two TLC runs and their parsed behaviours in flight: memory stays bounded by the two largest runs)
+        with cf.ThreadPoolExecutor(max_workers=2) as ex:
             futs = {}
             for nm, ck, ro in jobs:
                 fn = bulk_cfg(nm, **ck)
                 names.append(fn)
                 futs[ex.submit(_bulk_tlc, nm, fn)] = (nm, ro)
             for f in cf.as_completed(futs):
-                nm, ro = futs[f]
+                nm, ro = futs.pop(f)
                 r = f.result()
                 chk.add_tlc(r, "bulk_" + nm)
                 if r.violation:
